@@ -37,6 +37,16 @@ CLAIMS = {
  "C14": dict(technique="deviation-bounded exhaustive enumeration of scale assignments x methods on the real rockit against the unscaled reference, with the solver-variable/physical relation read from the enumerated labelling Jacobian",
              text="8 scale slots x method/degree/grid/N/M/DAE/horizon at <=3/<=4 deviations plus every slot x method x M x DAE: objective equal, user rows and bounds divided by the scale, dynamics rows up to a positive constant, each decision coordinate moves its physical read-back by exactly its scale, starting point equals the guesses in physical units.",
              design="DESIGN.md 5 (C14)"),
+
+ "C12": dict(technique="exhaustive enumeration of stage lists (length <=3) x coupling patterns x declaration patterns (direct / cloned / edited clones) on the real rockit, compared with the disjoint union of the stages' reference transcriptions (and, for SplineMethod stages, of the stages' own real NLPs) plus coupling rows",
+             text="Every stage list of length <=3 over a 7-stage alphabet x 7 coupling patterns x 4 declaration patterns, and every method list over {Spline, MS, DC} containing Spline: the multi-stage NLP is the disjoint union of the stages' NLPs plus the parent's coupling rows, the objective is the sum, clones equal direct declarations with overridden t0/T, siblings are independent, templates keep their declared state.",
+             design="DESIGN.md 5 (C12)"),
+ "C18": dict(technique="deviation-bounded exhaustive enumeration of feature programs x save positions (a short history dimension) on the real rockit under a solver spy; loaded vs original vs fresh object",
+             text="19 feature dimensions at <=2 deviations plus multi-stage programs x 5 save positions: what the solver receives from the loaded OCP equals what it receives from the original after saving and from a fresh OCP; accessor lists/shapes/order equal; updates through the loaded OCP's accessor symbols have the same effect as on the original.",
+             design="DESIGN.md 6 (C18)"),
+ "C20": dict(technique="exhaustive fault enumeration: every single fault of the catalogue x position x base program x method x before/after a first transcription, executed on the real rockit under a blocking solver spy",
+             text="33 fault kinds x applicable bases x positions x 5 method configurations x before/after transcription: an exception by solve time and zero NLPs handed to the solver; every base x method has a fault-free twin that must reach the solver.",
+             design="DESIGN.md 6 (C20)"),
 }
 NOTE = "Trusted: CasADi Function evaluation and Opti bookkeeping (x,p,f,g,lbg,ubg,initial), numpy/scipy, the reference model (written from the property statements, cross-checked against textbook closed forms). Numeric quantifiers are closed by a fixed generic-point alphabet (a stated bound), configuration quantifiers by the stated deviation/depth bound."
 
@@ -52,7 +62,7 @@ def main():
             evidence_file="/verif/evidence/%s.json" % pid,
             replay_cmd_template="./check %s --replay {path}" % pid,
             engine="mc-explorer",
-            level_claimed=dict(category="model_checking", text=c["text"], design_ref=c["design"]),
+            level_claimed=dict(category=c.get("category", "model_checking"), text=c["text"], design_ref=c["design"]),
             level_note=c.get("note", NOTE),
             technique=c["technique"]))
     na = [dict(property_id=p, reason=NA.get(p, "check not built yet in this session (work in progress); the design in DESIGN.md applies and the property is within the family")) for p in ALL if p not in CLAIMS]
